@@ -227,6 +227,77 @@ def _field_key_of_attr(e):
 
 T.field_key_of_attr = _field_key_of_attr      # the engine resolves the name at call time
 
+_KEY_PAIRS = (('row_idx', 'col_idx'), ('idx_row', 'idx_col'), ('ab', 'ac'), ('ba', 'ca'), ('a', 'A'), ('a_b_c', 'a_x_c'),
+              ('x1', 'x2'), ('s.a[0]', 's.a[1]'))
+
+
+def _key_fixes_order(interp, key):
+    """does sorting with this key give ONE order for a set of distinct elements?  Only if the key is injective on them:
+    no key / identity / repr / str / a unique-name attribute / a tuple that contains the element itself; a projection
+    (suffix, prefix, slice, len, another attribute) leaves ties whose order is the set's hash order.  Lambdas over
+    strings are additionally evaluated on adversarial pairs."""
+    if key is None or (isinstance(key, ast.Constant) and key.value is None):
+        return True
+    if isinstance(key, ast.Name):
+        if key.id in ('repr', 'str'):
+            return True
+        fi = interp.fi
+        return fi is not None and key.id in fi.all_params()        # a forwarded sort key: judged at the call site
+    if isinstance(key, ast.Attribute):
+        return False
+    if not isinstance(key, ast.Lambda) or len(key.args.args) != 1:
+        return False
+    p, body = key.args.args[0].arg, key.body
+
+    def contains_elem(e):
+        if isinstance(e, ast.Name) and e.id == p:
+            return True
+        if isinstance(e, ast.Call) and isinstance(e.func, ast.Name) and e.func.id in ('repr', 'str') and len(e.args) == 1:
+            return contains_elem(e.args[0])
+        if isinstance(e, ast.Attribute) and e.attr in ('__name__', '__qualname__') and isinstance(e.value, ast.Name) and e.value.id == p:
+            return True          # update blocks / classes of one component have unique names (trusted, see ASSUMPTIONS)
+        if isinstance(e, ast.Subscript) and isinstance(e.value, ast.Name) and e.value.id == p and \
+                isinstance(e.slice, ast.Constant) and e.slice.value == 0:
+            return True          # (key, value) items of a dict: the key component is unique
+        if isinstance(e, ast.Tuple):
+            return any(contains_elem(x) for x in e.elts)
+        return False
+    if contains_elem(body):
+        return True
+    # a computed key: try it on adversarial names
+    try:
+        for a, b in _KEY_PAIRS:
+            va = _FnExec({p: a}, arith=True, funcs=_GUARD_FUNCS).ev(body)
+            vb = _FnExec({p: b}, arith=True, funcs=_GUARD_FUNCS).ev(body)
+            if va == vb:
+                return False
+    except (AnalysisError, TypeError, IndexError, AttributeError):
+        return False
+    return False             # distinct on the samples only: not a proof
+
+
+_orig_builtin = T.Interp.builtin
+
+
+def _builtin_with_sort_keys(self, call, name):
+    if name in ('sorted', '.sort'):
+        key = [k.value for k in call.keywords if k.arg == 'key']
+        if key and not _key_fixes_order(self, key[0]):
+            if name == 'sorted':
+                vals = [self.eval(a) for a in call.args]
+                for k in call.keywords:
+                    self.eval(k.value)
+                a0 = vals[0] if vals else T.O
+                return T.C(T.u_of(a0), T.elem_of(a0))       # ties keep the (hash-seed dependent) input order
+            self.eval(call.func.value)
+            for k in call.keywords:
+                self.eval(k.value)
+            return T.O                                        # no strong update: the list stays unordered
+    return _orig_builtin(self, call, name)
+
+
+T.Interp.builtin = _builtin_with_sort_keys
+
 
 _CACHE = {}
 
@@ -3709,6 +3780,10 @@ MUTANTS = [
     _m('definitions-keyed-by-unique-name-only', TRANSLATOR,
        "        name = s.structural.component_explicit_module_name[m] or \\\n               s.structural.component_unique_name[m]\n",
        "        name = s.structural.component_unique_name[m]\n", 'R-C13-once'),
+    _m('loopvars-sorted-by-suffix-only', YBL1, "loopvars = sorted(list( s.loopvars ))",
+       "loopvars = sorted(list( s.loopvars ), key = lambda v: v.rsplit('_', 1)[-1])", 'R-C13-unordered'),
+    _m('loopvars-sorted-by-length', YBL1, "loopvars = sorted(list( s.loopvars ))",
+       "loopvars = sorted(list( s.loopvars ), key = len)", 'R-C13-unordered'),
     # --- R-C13-state
     _m('translator-state-initialised-once', VTRANSLATOR,
        "      s._mangled_placeholder_top_module_name = ''\n      s._included_pickled_files = set()\n",
@@ -3921,6 +3996,9 @@ EQUIV = [
        "    inst._dsl.update_ff = set()\n", "    dsl = inst._dsl\n    dsl.update_ff = set()\n", None),
     _m('dsl-upblks-through-alias', 'pymtl3/dsl/ComponentLevel1.py',
        "    inst._dsl.upblks      = set()\n", "    ns = inst._dsl\n    ns.upblks      = set()\n", None),
+    _m('loopvars-sorted-key-str', YBL1, "loopvars = sorted(list( s.loopvars ))", "loopvars = sorted(list( s.loopvars ), key = str)", None),
+    _m('loopvars-sorted-by-suffix-then-name', YBL1, "loopvars = sorted(list( s.loopvars ))",
+       "loopvars = sorted(list( s.loopvars ), key = lambda v: (v.rsplit('_', 1)[-1], v))", None),
     _m('local-renamed-in-unique-name', VUTIL, "  param_name = param_hash.hexdigest()\n  return comp_name + \"__\" + param_name",
        "  digest = param_hash.hexdigest()\n  return comp_name + \"__\" + digest", None),
 ]
